@@ -101,8 +101,11 @@ def path_bytes(ctx, job, box):
     try:
         for kind, arg in plan:
             if kind == 'm':
-                if ref.pending():
-                    assumed_away = True     # a switch with an unfinished sequence pending: not fixed by the statement
+                changes_mode = (arg == '@' and utf8) or (arg in ('G', '8') and not utf8)
+                if ref.pending() and changes_mode:
+                    # leaving UTF-8 mode with an unfinished sequence pending: not fixed by the statement.
+                    # Re-selecting the current mode (or an unknown code) is not a switch: nothing may be dropped.
+                    assumed_away = True
                     break
                 steps.append(['select_other_charset', arg])
                 ses.step(['select_other_charset', arg])
@@ -205,7 +208,9 @@ def jobs(tier):
             js.append(Job('utf8/' + '+'.join(map(str, comp)), path_bytes, plan=plan, prop=PROP))
     js.append(Job('empty', path_bytes, plan=[('b', 0), ('b', 1), ('b', 0)], prop=PROP))
     sw = [[('m', '@'), ('b', 2)], [('b', 1), ('m', '@'), ('b', 2)], [('m', '@'), ('b', 1), ('m', 'G'), ('b', 2)],
-          [('b', 2), ('m', '@'), ('b', 1), ('m', '8'), ('b', 2)], [('m', 'x'), ('b', 2)], [('m', '@'), ('b', 1), ('m', 'x'), ('b', 1)]]
+          [('b', 2), ('m', '@'), ('b', 1), ('m', '8'), ('b', 2)], [('m', 'x'), ('b', 2)], [('m', '@'), ('b', 1), ('m', 'x'), ('b', 1)],
+          [('b', 2), ('m', 'G'), ('b', 2)], [('b', 1), ('m', '8'), ('b', 2)], [('b', 2), ('m', 'x'), ('b', 1)],
+          [('m', '@'), ('b', 1), ('m', '@'), ('b', 1)]]
     for i, plan in enumerate(sw):
         js.append(Job('switch/%d' % i, path_bytes, plan=plan, prop=PROP))
     return js
@@ -217,7 +222,9 @@ REPS = [0x00, 0x41, 0x7f, 0x80, 0x8f, 0x90, 0x9f, 0xa0, 0xbb, 0xbf, 0xc0, 0xc1, 
 
 def prelude(info):
     """Validate the engine's encoding_rs summaries against the real crate: every byte string of length
-    <= 3 over the byte-class representatives, one-shot API and streaming API (split at every point)."""
+    <= 3 over the byte-class representatives through the one-shot API and through the streaming API split
+    at every point (ample capacity), and the streaming model with destination capacities 0..9 after each
+    kind of held prefix (the OutputFull / early-stop behaviour)."""
     prog = G['prog']
     binary = G['bins']['dev']
     cases = []
@@ -231,6 +238,15 @@ def prelude(info):
             for k in range(1, len(c)):
                 stream_cases.append([c[:k], c[k:]])
     lines += [json.dumps({'chunks': sc}) for sc in stream_cases]
+    cap_cases = []
+    for first in ([], [0xE2], [0xE2, 0x82], [0xF0, 0x9F, 0x98], [0xC3]):
+        for n in (1, 2):
+            for t in itertools.product(REPS, repeat=n):
+                for cap in (0, 1, 2, 3, 4, 5, 6, 7, 9):
+                    if n == 2 and cap in (1, 2, 5):
+                        continue
+                    cap_cases.append(([first, list(t)] if first else [list(t)], ([12, cap] if first else [cap])))
+    lines += [json.dumps({'chunks': ch, 'caps': cp}) for ch, cp in cap_cases]
     p = subprocess.run([binary, 'decode'], input='\n'.join(lines) + '\n', stdout=subprocess.PIPE, text=True, check=True)
     outs = [json.loads(l) for l in p.stdout.strip().split('\n')]
     eng = Engine(prog, Ctx())
@@ -241,15 +257,33 @@ def prelude(info):
         chars, _ = stdlib.utf8_decode(eng, b2)
         if list(chars) != o:
             bad.append('one-shot %r: summary %r, encoding_rs %r' % (c, chars, o))
-    for sc, o in zip(stream_cases, outs[len(cases):]):
+    o2 = outs[len(cases):len(cases) + len(stream_cases)]
+    for sc, o in zip(stream_cases, o2):
         pend = []
         res = []
         for ch in sc:
-            chars, _, pend = stdlib.utf8_decode(eng, pend + [Int('u8', b) for b in ch], lossy_tail=False, want_pending=True)
+            room = 3 + 3 * (len(ch) + len(pend))
+            chars, pend, _, _, _ = stdlib.ers_stream_decode(eng, pend, [Int('u8', b) for b in ch], room, False)
             res.append(list(chars))
         if res != o:
-            bad.append('streaming %r: summary %r, encoding_rs %r' % (sc, res, o))
-    info['encoding_rs_summary_cases_checked'] = len(cases) + len(stream_cases)
+            bad.append('streaming %r: model %r, encoding_rs %r' % (sc, res, o))
+    o3 = outs[len(cases) + len(stream_cases):]
+    for (chs, caps), o in zip(cap_cases, o3):
+        pend = []
+        res = []
+        try:
+            for ch, cap in zip(chs, caps):
+                chars, pend, result, read, _ = stdlib.ers_stream_decode(eng, pend, [Int('u8', b) for b in ch], cap, False)
+                res.append({'cps': list(chars), 'read': read, 'full': bool(result)})
+        except Panic:
+            res.append({'panic': True})
+        nat = [({k: x[k] for k in ('cps', 'read', 'full')} if 'cps' in x else x) for x in o]
+        # the allocator may hand out more capacity than requested; only compare when it did not
+        if any('cap' in x and x['cap'] != cp for x, cp in zip(o, caps)):
+            continue
+        if res != nat:
+            bad.append('small destination %r caps %r: model %r, encoding_rs %r' % (chs, caps, res, nat))
+    info['encoding_rs_summary_cases_checked'] = len(cases) + len(stream_cases) + len(cap_cases)
     return bad[:5]
 
 
@@ -258,7 +292,7 @@ META = {
                   'Parser::set_use_utf8'],
     'bounds': 'all byte strings of total length 1..4 (thorough 5) with every byte symbolic, for every composition into '
               'chunks (incl. empty chunks), plus six mode-switch plans (@, G, 8, unknown) between chunks',
-    'outside': 'longer streams that are not concatenations of covered ones with an empty carry-over; a mode switch while '
+    'outside': 'longer streams that are not concatenations of covered ones with an empty carry-over; leaving UTF-8 mode while '
                'an unfinished sequence is pending; the encoding_rs summary is validated on all strings of length <= 3 over '
                '26 byte-class representatives, one-shot and streaming, not proved',
 }
